@@ -11,3 +11,47 @@ package lib
 //@   ensures[count] result1 == nil ==> result0.NumValidators == len(validators.ValidatorSet) && result0.ValidatorSet == validators
 //@   ensures[nonzero] result1 == nil ==> result0.TotalPower > 0
 //@   loop 1 invariant[acc] totalPower == sumVP(validators.ValidatorSet, iter) && count == iter && 0 <= iter && iter <= len(validators.ValidatorSet)
+
+// ---- aggregate signatures (C01, C02, C14) ------------------------------------------------------
+
+// signedPowerW mirrors the accumulation in getSigners exactly (64-bit wrap at each step); that it
+// equals the mathematical sum follows from NewValidatorSet#ensures.total (total < 2^64).
+//@ spec func signedPowerW(vals []*ConsensusValidator, bm BSeq, ns bool, n int) int = n <= 0 ? 0 : wrap64(signedPowerW(vals, bm, ns, n-1) + ((signerBit(bm, n-1) != ns) ? vals[n-1].VotingPower : 0))
+
+//@ func (*AggregateSignature).CheckBasic
+//@   ensures[shape] result == nil ==> x != nil && len(x.Signature) == crypto.BLS12381SignatureSize && len(x.Bitmap) > 0
+
+//@ func (*AggregateSignature).getSigners
+//@   ensures[power] err == nil ==> power == signedPowerW(vs.ValidatorSet.ValidatorSet, bytes(x.Bitmap), nonSigners, len(vs.ValidatorSet.ValidatorSet))
+//@   loop 1 invariant[acc] power == signedPowerW(vs.ValidatorSet.ValidatorSet, bytes(x.Bitmap), nonSigners, iter) && mpkBitmap(key) == bytes(x.Bitmap) && 0 <= iter && iter <= len(vs.ValidatorSet.ValidatorSet) && err == nil
+
+//@ func (*AggregateSignature).GetSigners
+//@   ensures[power] err == nil ==> signedPower == signedPowerW(vs.ValidatorSet.ValidatorSet, bytes(x.Bitmap), false, len(vs.ValidatorSet.ValidatorSet))
+
+//@ func (*AggregateSignature).Check
+//@   ensures[basic] err == nil ==> x != nil && len(x.Signature) == crypto.BLS12381SignatureSize && len(x.Bitmap) > 0
+//@   ensures[verified] err == nil ==> aggVerifies(committeeOf(vs.MultiKey), bytes(x.Bitmap), signBytesOf(sb), bytes(x.Signature))
+//@   ensures[maj23] err == nil ==> (isPartialQC <==> signedPowerW(vs.ValidatorSet.ValidatorSet, bytes(x.Bitmap), false, len(vs.ValidatorSet.ValidatorSet)) < vs.MinimumMaj23)
+
+// ---- views and quorum certificates (C01, C02) ---------------------------------------------------
+
+//@ func (*View).CheckBasic
+//@   ensures[nonnil] err == nil ==> x != nil
+
+//@ func (*View).Check
+//@   ensures[ids] result == nil ==> x != nil && x.NetworkId == view.NetworkId && x.ChainId == view.ChainId
+//@   ensures[heights] result == nil && enforceHeights ==> x.Height == view.Height && x.RootHeight == view.RootHeight
+
+//@ func (*QuorumCertificate).CheckBasic
+//@   ensures[shape] result == nil ==> x != nil && x.Header != nil && x.Signature != nil && len(x.Signature.Signature) == crypto.BLS12381SignatureSize && len(x.Signature.Bitmap) > 0
+//@   ensures[hashes] result == nil && x.ResultsHash != nil ==> len(x.BlockHash) == crypto.HashSize && len(x.ResultsHash) == crypto.HashSize
+//@   ensures[resultsbind] result == nil && x.ResultsHash != nil && x.Results != nil ==> bytes(x.ResultsHash) == hashOf(pbBytes(x.Results))
+//@   ensures[blockbind] result == nil && x.ResultsHash != nil && x.Block != nil ==> bytes(x.BlockHash) == blockHashOfBytes(bytes(x.Block)) && len(x.Block) <= GlobalMaxBlockSize
+//@   ensures[election] result == nil && x.ResultsHash == nil ==> len(x.ProposerKey) == crypto.BLS12381PubKeySize && x.Results == nil && len(x.BlockHash) == 0 && len(x.Block) == 0
+//@   ensures[frame] unchanged(x.Header, x.Block, x.BlockHash, x.ResultsHash, x.Results, x.ProposerKey, x.Signature)
+
+//@ func (*QuorumCertificate).Check
+//@   ensures[basic] error == nil ==> x != nil && x.Header != nil && x.Signature != nil
+//@   ensures[view] error == nil ==> x.Header.NetworkId == view.NetworkId && x.Header.ChainId == view.ChainId && (enforceHeights ==> x.Header.Height == view.Height && x.Header.RootHeight == view.RootHeight)
+//@   ensures[verified] error == nil ==> aggVerifies(committeeOf(vs.MultiKey), bytes(x.Signature.Bitmap), signBytesOf(x), bytes(x.Signature.Signature))
+//@   ensures[maj23] error == nil ==> (isPartialQC <==> signedPowerW(vs.ValidatorSet.ValidatorSet, bytes(x.Signature.Bitmap), false, len(vs.ValidatorSet.ValidatorSet)) < vs.MinimumMaj23)
